@@ -267,6 +267,17 @@ def run(F, R):
                         continue
                     n_arms += 1
                     only = reach_in(S, errs, cx) - reach_in(S, oks, cx)
+                    # every way out of the error arm records the loss (whatever the kind of error)
+                    if cx.bv.id in helper_ids:
+                        barrier = list(lost)
+                    else:
+                        # per-app report: one loss per listed event, i.e. the loop over the events is always entered
+                        barrier = [y for x in inline_lost for L_ in comps if x in L_ for y in L_
+                                   if S.nodes[y].term["k"] == "call" and lib.callee_is(S.nodes[y].term, "std::iter::Iterator::next")]
+                    unrec = reach_in(S, errs, cx, cut_nodes=barrier) & set(cx.returns if cx.returns else S.root.returns)
+                    if cx.bv.id in helper_ids or any(x in only for x in inline_lost):
+                        R.check("C10-R4", "lost-on-every-error:" + _ctxkey(cx), not unrec, "every failed report, whatever the error, is counted as OmahaEventLost",
+                                "a failed report can end without being counted as lost (some error kinds are skipped)", S.nodes[m.idx].loc())
                     again = [x for x in only if S.ev[x] and S.ev[x][0] == "env" and S.ev[x][1] == "Http"]
                     R.check("C10-R4", "not-retried:" + _ctxkey(cx), not again, "a failed report is not sent again", "a failed report is retried at %s" % [S.nodes[x].loc() for x in again], S.nodes[m.idx].loc())
     R.floor("C10-R4", "report error arms", n_arms, 6)
